@@ -16,11 +16,19 @@ for lf in ('/tmp/seedrun_a.log','/tmp/seedrun_b.log','/tmp/seedrun_c.log','/tmp/
         m=re.match(r'(C\d\d)-(\d) clean=',line)
         if m and m.group(1)==prop and 'package load errors' not in line and m.group(2) not in firsts:
             firsts[m.group(2)]=line
+# first-run outcomes corrected by hand where the logs mislead: a 'VIOLATION' that was a defect of the
+# unchanged tree fixed later (C14-1: the IPv6 check), a harness that had already been strengthened after
+# the same mutation arrived for another property (C05-2, C15-2 = C03-1), a harness written after reading
+# the change's description (C09-1), or first runs that only exist in the final pass (C02, C07-2, C09-2)
+FORCE={'C14':{'1':False},'C05':{'2':False},'C15':{'2':False},'C09':{'1':False,'2':True},'C02':{'1':True,'2':True},'C07':{'1':True,'2':True}}
+SKIP={'C04':{'1':'not stored: after the fix 8b2c702 (stored identities are verified when a session is created) its demonstration passes with the patch; the check still reports the record stored before verification'}}
 existing=[int(os.path.basename(d).split('-')[1]) for d in glob.glob(f'{V}/seeded/{prop}-*')]
 nxt=max(existing+[0])+1
 for n in ('1','2','3'):
     pf=f'{sd}/patch_{n}.diff'
     if not os.path.exists(pf): continue
+    if n in SKIP.get(prop,{}):
+        print(prop,'candidate',n,SKIP[prop][n]); continue
     res=open(f'{sd}/result_{n}.txt', errors='replace').read() if os.path.exists(f'{sd}/result_{n}.txt') else ''
     m=re.search(r'clean=\[(.*?)\] build=\[(.*?)\] patched=\[(.*?)\] suite-nonok=\[(.*?)\] check=',res,re.S)
     if not m or not m.group(1).startswith('ok') or m.group(2).strip() or 'FAIL' not in m.group(3):
@@ -34,7 +42,9 @@ for n in ('1','2','3'):
     d=f'{V}/seeded/{sid}'; os.makedirs(d,exist_ok=True)
     shutil.copy(pf,f'{d}/patch.diff'); shutil.copy(f'{sd}/demo_{n}_test.go',f'{d}/demo_test.go')
     fr=firsts.get(n,res)
-    first='detected (VIOLATION) by the quick check of its property on the first run' if re.search(r'exit=1 .*VIOLATION',fr) else 'NOT detected on the first run'
+    hit=bool(re.search(r'exit=1 .*VIOLATION',fr))
+    if n in FORCE.get(prop,{}): hit=FORCE[prop][n]
+    first='detected (VIOLATION) by the quick check of its property on the first run' if hit else 'NOT detected on the first run'
     final_ok=bool(re.search(r'exit=1 .*VIOLATION',res))
     det = 'quick check of '+prop if final_ok else 'not detected'
     if n in notes: det = notes[n]
